@@ -76,6 +76,21 @@ def check(repo: Repo, rep: Report) -> None:
         rep.ob("W1-stale-guard", g, f"inner {g.name}: {short(s.node)} under {gt}", ok,
                f"an inner sequence's {k} reaches the subscriber without `latest == {idv}` dominating it: a superseded inner "
                f"still emits / terminates the output")
+    # state writes of inner handlers are stale-guarded too: a superseded inner must not touch the join state
+    for g in outer_next.children:
+        if not g.is_func:
+            continue
+        for s in sites(g):
+            n_ = s.node
+            if isinstance(n_, (ast.Assign, ast.AugAssign)):
+                tgt = n_.targets[0] if isinstance(n_, ast.Assign) else n_.target
+                cn = cell_name(tgt)
+                if cn and g.owner(cn) is root:
+                    ok = any(_eq_guard(e, p, latest, idv) for e, p in s.ctx.guards) if idv else False
+                    rep.ob("W1-stale-guard", g, f"inner {g.name}: `{short(n_, 40)}` under the stale guard", ok,
+                           f"an inner sequence's {g.name} updates the operator's state (`{cn}`) without `latest == {idv}` dominating "
+                           f"it: a superseded inner that terminates late resets the join state of the current one (the output "
+                           f"completes while the latest inner is still running)")
     # serial swap
     sub = inner_sub[0]
     holder = u(sub.stmt.targets[0].value) if isinstance(sub.stmt, ast.Assign) and isinstance(sub.stmt.targets[0], ast.Attribute) else None
@@ -101,3 +116,8 @@ def check(repo: Repo, rep: Report) -> None:
                 isinstance(x.node, ast.Assign) and cell_name(x.node.targets[0]) in stopped_flags and u(x.node.value) == "True" and x.index < s.index for x in sites(g))
             rep.ob("W3-completion-join", g, f"outer completion: {gt}", ok, "the outer's completion completes the output while the latest inner is still live")
     TC.composite_uses(repo, rep, "W4-delegations", COMPOSITES)
+    TC.pipelines_exact(repo, rep, "W4-delegations", {
+        ("reactivex/operators/_flatmap.py", "flat_map_latest_"): [["map", "switch_latest"]],
+        ("reactivex/operators/__init__.py", "switch_map"): [["map", "switch_latest"]],
+        ("reactivex/operators/__init__.py", "switch_map_indexed"): [["map_indexed", "switch_latest"]],
+    })
